@@ -19,6 +19,17 @@ CHECKS = {
         note='Trusted: TLC, BigInteger rationals, float projection. Tolerance 1e-9 relative. CLGS/AGS (model 4) and SUTRA not covered. '
              'Continuous inputs sampled by seed.',
         tech='TLA+ spec (LevelizedDef/Levelized.tla) model-checked with TLC; TLC-generated vectors replayed into code; TLC trace validation'),
+    'C02': dict(
+        cat='model_checking', ref='DESIGN.md section 5 C02',
+        text='Energy.tla (per-year slice/trapezoid machine and heat-content accumulation of SurfacePlant) is model-checked over every '
+             'small (lifetime, steps per year, series) for tiling, additivity, constant-series and bound invariants; every vector TLC '
+             'dumps is replayed into integrate_time_series_slice, annual_electricity_pumping_power and remaining_reservoir_heat_content; '
+             'a snapshot taken right after the surface plant Calculate of every run (all 8 plant classes, all cogeneration variants, '
+             '1..12 steps per year, district heating daily split) is validated step by step and year by year by TraceEnergy.tla in exact '
+             'rational arithmetic.',
+        note='Trusted: TLC, BigInteger rationals, float projection. The last-year (short slice / single-sample) convention is a model-fit clause '
+             '(drift warning, not violation). Water properties and plant efficiency correlations are not recomputed. SUTRA/AGS not covered.',
+        tech='TLA+ spec (Energy.tla) model-checked with TLC; TLC-generated vectors replayed into code; TLC trace validation (TraceEnergy.tla)'),
     'C03': dict(
         cat='model_checking', ref='DESIGN.md section 5 C03',
         text='CostRollup.tla models the CAPEX/OPEX assembly of Economics.Calculate as actions in code order and is model-checked over '
